@@ -35,14 +35,12 @@ f1f4efe C15
 20a2502 C18
 a4a3235 C18
 7409b1d C18
-25f9667 C19
 06b0dfc C19
 4055d97 C18
 649779a C13
 459ad16 C13
 1b8802c C05
 36d3401 C13
-f63dd05 C18
 369895b C12
 3b2934b C12
 3ab4ce6 C19
